@@ -203,6 +203,15 @@ void exclusive(const int N, const int *in, int *out) {
     out[i] = in[i] * 3;
   }
 }''', [('int', 'N', 0, A8)], [('int', 'in', A8, 'in'), ('int', 'out', A8, 'out')], feats='@tile(4,@outer,@inner)'))
+    P.append(K('tiledincl', '''
+@kernel void tiledincl(const int N, const int *in, int *out) {
+  for (int i = 0; N - 1 >= i; ++i; @tile(4, @outer, @inner)) {
+    out[i] = in[i] - 7;
+  }
+  for (int j = N - 1; 0 <= j; j -= 2; @tile(2, @outer, @inner)) {
+    out[j] += 100;
+  }
+}''', [('int', 'N', 0, A8)], [('int', 'in', A8, 'in'), ('int', 'out', A8, 'out')], feats='@tile with inclusive comparisons written bound-first, ascending and descending with a step'))
     P.append(K('tiled2d', '''
 @kernel void tiled2d(const int W, const int H, const int *in, int *out) {
   for (int y = 0; y < H; ++y; @tile(2, @outer, @inner)) {
